@@ -40,6 +40,10 @@ def run(ctx):
     from ..report import BorrowedCtx
     from .C13 import rule_d as _undo_groups
     ctx.guard(_undo_groups, BorrowedCtx(ctx, {'C13.d': 'C06.g'}), ix, ('groups',))
+    # groups follow the collection through hub messages, which may be delayed: every queued message must be delivered, once, from
+    # a detached snapshot of the queue (the hub's flush discipline is a necessary condition here as well)
+    from .C07 import rule_b as _flush
+    ctx.guard(_flush, BorrowedCtx(ctx, {'C07.b': 'C06.h'}), ix, ix.cls('glue.core.hub.Hub'))
 
 
 def rule_a(ctx, ix):
